@@ -583,7 +583,13 @@ def _np_zeros(shape, dtype=float, **k):
 
 def _maybe_lazy(shape, value, dtype):
     shp = shape if isinstance(shape, (tuple, list)) else (shape,)
-    if any(isinstance(s, SInt) for s in shp):
+    big = False
+    if not any(isinstance(s, SInt) for s in shp):
+        tot = 1
+        for s in shp:
+            tot *= builtins.int(s)
+        big = tot > 4096
+    if big or any(isinstance(s, SInt) for s in shp):
         return constant(tuple(shp), value, tag=arrays._np_dtype(dtype) if dtype is not None else None)
     return arrays.filled(shp, value, tag=arrays._np_dtype(dtype) if dtype is not None else None)
 
@@ -764,3 +770,50 @@ def array_equal(a, b, equal_nan=False):
 
 
 FUNCTIONS[np.array_equal] = array_equal
+
+
+# --------------------------------------------------------------------------- #
+# reductions / reshapes used by the chunked destriping code
+
+
+def reduce_opaque(name):
+    def f(a, axis=None, **k):
+        if axis is None:
+            raise Unsupported(f"{name} of a whole lazy array")
+        axis = axis % a.ndim
+        shape = tuple(s for r, s in enumerate(a.shape) if r != axis)
+        return opaque(f"{name}_ax{axis}", a, shape=shape, tag=a.tag)
+    return f
+
+
+def tile(a, reps):
+    if not isinstance(reps, (tuple, list)):
+        reps = (reps,)
+    if a.ndim == 1 and len(reps) == 2 and reps[1] == 1:
+        fa = a.fn
+        aid = op_aid("tile", a._aid, reps[0]) if a._aid is not None else None
+        return LArr((reps[0], a.shape[0]), lambda r, c: fa(c), aid=aid, tag=a.tag)
+    raise Unsupported("tile of a lazy array in this configuration")
+
+
+def reshape(a, shape, *more, **k):
+    if more:
+        shape = (shape,) + tuple(more)
+    if a.ndim == 1 and len(shape) == 2:
+        r, c = shape
+        if isinstance(c, Sym):
+            raise Unsupported("reshape with symbolic column count")
+        if not builtins.bool(core.eq(r * c, a.shape[0])):
+            raise ValueError(f"cannot reshape array of size {a.shape[0]} into shape {tuple(shape)}")
+        fa = a.fn
+        aid = op_aid(f"reshape{c}", a._aid, r) if a._aid is not None else None
+        return LArr((r, c), lambda i, j: fa(i * c + j), aid=aid, tag=a.tag)
+    raise Unsupported("reshape of a lazy array in this configuration")
+
+
+LArr.reshape = lambda self, *shape, **k: reshape(self, shape[0] if len(shape) == 1 else shape)
+FUNCTIONS[np.mean] = reduce_opaque("mean")
+FUNCTIONS[np.sum] = reduce_opaque("sum")
+FUNCTIONS[np.median] = reduce_opaque("median")
+FUNCTIONS[np.tile] = tile
+FUNCTIONS[np.reshape] = reshape
